@@ -201,7 +201,7 @@ func buildStore(ms []sMetric) (*metrics.Store, []*metrics.Metric, error) {
 	return s, real, nil
 }
 
-var genNames = []string{"m", "m-x", "total_x", "9bad", "", "m\xc3\xa9", "m:colon", "a.b", "lat-ms", "z", "pct%d"}
+var genNames = []string{"m", "m-x", "http-requests-total", "a-b-c-d", "total_x", "9bad", "", "m\xc3\xa9", "m:colon", "a.b", "lat-ms", "z", "pct%d"}
 var genKeys = []string{"k", "host", "a-b", "9k", "", "prog", "__r", "le2", "code"}
 var genVals = []string{"a", "", "x y", "\xff", "\xc3\xa9", "\"q\"", "a\nb", "v1", "v2", "b\\c", "50%", "a%20b", "%s%v", "{x}", "$1"}
 var genInts = []int64{0, 1, -1, 42, 9007199254740993, math.MaxInt64, math.MinInt64, -9007199254740993}
